@@ -135,8 +135,92 @@ forward_published!(c16_forward_published_average, Surround::Average, (0.69, 1.0,
 forward_published!(c16_forward_published_dim, Surround::Dim, (0.59, 0.9, 0.9), "dim surround");
 forward_published!(c16_forward_published_dark, Surround::Dark, (0.525, 0.8, 0.8), "dark surround");
 
+// ---- forward model == published equations, function by function (needs the cfg(palette_verif) hook of /repo) ----
+macro_rules! parameters_published {
+    ($name:ident, $surround:expr, $consts:expr, $what:expr) => {
+        program!($name, "C16", "quick", v,
+            "Parameters::bake -> cam16::math::prepare_parameters (incl. Adapt::run on the adapted white) [cam16/math.rs, cam16/parameters.rs]; read through the hook BakedParameters::verif_dependent",
+            concat!($what, ", L_A = 40, Y_b = 20, D65, default discounting: every viewing-condition dependent quantity the code bakes equals step 0 of the published model (Li et al. 2017 / CIE 248:2022, specs.rs::cam16_viewing_conditions): D_R, D_G, D_B and their reciprocals, n, z = 1.48 + sqrt(n), N_bb = N_cb = 0.725 n^-0.2, N_c and c of the surround table, F_L, F_L^(1/4), A_w, and the constants of the inverse compression"),
+        {
+            let baked = params!($surround, Discounting::Auto);
+            let f = baked.verif_dependent();
+            let g = |i: usize| <T as palette::num::FromScalar>::from_scalar(f[i]);
+            let vc = crate::specs::cam16_viewing_conditions::<T>(crate::specs::W_D65, T::k(40.0), 0.2, $consts);
+            let tol = T::tol(1e-9, 1e-6);
+            T::lemma("f_l", same_or_close(g(14), vc.fl, tol));
+            T::ensure("d_r", same_or_close(g(0), vc.d_rgb[0], tol)); T::ensure("d_g", same_or_close(g(1), vc.d_rgb[1], tol)); T::ensure("d_b", same_or_close(g(2), vc.d_rgb[2], tol));
+            T::ensure("d_r_inv", same_or_close(g(3) * vc.d_rgb[0], T::k(1.0), tol)); T::ensure("d_g_inv", same_or_close(g(4) * vc.d_rgb[1], T::k(1.0), tol)); T::ensure("d_b_inv", same_or_close(g(5) * vc.d_rgb[2], T::k(1.0), tol));
+            T::ensure("n", same_or_close(g(6), vc.n, tol));
+            T::ensure("n_bb", same_or_close(g(7), vc.nbb, tol));
+            T::ensure("n_c", same_or_close(g(8), vc.nc, tol));
+            T::ensure("n_cb", same_or_close(g(9), vc.ncb, tol));
+            T::ensure("a_w", same_or_close(g(10), vc.aw, T::tol(1e-7, 1e-5)));
+            T::ensure("c", same_or_close(g(11), vc.c, tol));
+            T::ensure("z", same_or_close(g(12), vc.z, tol));
+            T::ensure("f_l_4", same_or_close(g(13), vc.fl4, tol));
+            // inverse compression: x = sign(y) (100 / F_L) (27.13 |y| / (400 - |y|))^(1/0.42): constant = 100 / F_L * 27.13^(1/0.42)
+            T::ensure("unadapt_exponent", same_or_close(g(16) * T::k(0.42), T::k(1.0), tol));
+            T::ensure("unadapt_constant", same_or_close(g(15) * vc.fl, T::k(100.0) * palette::num::Powf::powf(T::k(27.13), T::k(1.0) / T::k(0.42)), T::tol(1e-6, 1e-3)));
+        });
+    };
+}
+parameters_published!(c16_parameters_published_average, Surround::Average, (0.69, 1.0, 1.0), "average surround");
+parameters_published!(c16_parameters_published_dim, Surround::Dim, (0.59, 0.9, 0.9), "dim surround");
+parameters_published!(c16_parameters_published_dark, Surround::Dark, (0.525, 0.8, 0.8), "dark surround");
+
+program!(c16_forward_published_given_vc, "C16", "quick", v,
+    "Cam16::from_xyz -> cam16::math::{xyz_to_cam16, Adapt::run, m16, calculate_lightness / brightness / chroma / colorfulness / saturation} [cam16/math.rs, cam16/full.rs], run with explicitly given viewing-condition quantities through the hook BakedParameters::verif_from_dependent",
+    "steps 1-7 of the published forward model for ARBITRARY viewing-condition quantities (D_RGB, F_L, n, N_bb, N_cb, N_c, A_w, c, z as universally quantified variables in their physical ranges) and every XYZ colour with positive cone responses: hue angle, J, Q (squared), C, M and the defining equation of s equal the published equations (specs.rs::cam16_forward_cie_with)",
+{
+    let v = |n: &str, lo: f64, hi: f64| T::var(n, lo, hi);
+    let (x, y, z) = (v("x", 0.0, 1.0), v("y", 0.0, 1.0), v("z", 0.0, 1.1));
+    let (dr, dg, db) = (v("d_r", 0.5, 2.0), v("d_g", 0.5, 2.0), v("d_b", 0.5, 2.0));
+    let (fl, fl4) = (v("f_l", 0.001, 2.0), v("f_l_4", 0.1, 1.5));
+    let (n, nbb, ncb, nc) = (v("n", 0.01, 1.0), v("n_bb", 0.5, 2.0), v("n_cb", 0.5, 2.0), v("n_c", 0.8, 1.0));
+    let (aw, c, zz) = (v("a_w", 1.0, 100.0), v("c", 0.525, 0.69), v("zz", 1.5, 2.5));
+    let one = T::k(1.0);
+    let sc = |t: T| <T as ToScalar>::to_scalar(t);
+    let fields = [sc(dr), sc(dg), sc(db), sc(one / dr), sc(one / dg), sc(one / db), sc(n), sc(nbb), sc(nc), sc(ncb), sc(aw), sc(c), sc(zz), sc(fl4), sc(fl), sc(one), sc(one)];
+    let baked: palette::cam16::BakedParameters<StaticWp<D65>, <T as palette::num::FromScalar>::Scalar> = palette::cam16::BakedParameters::verif_from_dependent(fields);
+    // positive cone responses (every colour inside the spectral locus), strictly brighter than black
+    let (r0, g0, b0) = crate::specs::cam16_m16(x * T::k(100.0), y * T::k(100.0), z * T::k(100.0));
+    T::assume(conj::<T>(&[T::p_le(&T::k(0.01), &r0), T::p_le(&T::k(0.01), &g0), T::p_le(&T::k(0.01), &b0)]));
+    let full: Cam16<T> = Cam16::from_xyz(Xyz::<D65, T>::new(x, y, z), baked);
+    let vc = crate::specs::Cam16Vc { d_rgb: [dr, dg, db], fl, fl4, n, nbb, ncb, nc, aw, c, z: zz, d: one };
+    let sp = crate::specs::cam16_forward_cie_with::<T>((x, y, z), vc);
+    let tol = T::tol(1e-9, 1e-6);
+    // stepping stones: the REAL cone response compression (hook verif_adapt -> Adapt::run) against the published one, then the
+    // published opponent signals, hue angle, eccentricity and t rebuilt from those real values. Each is a discharged lemma and a
+    // premise of the next; they are facts about Adapt::run and the publication, whatever the internals of xyz_to_cam16 are.
+    let k = |v: f64| T::k(v);
+    // exact over the reals (tolerance 0), floating point tolerance only when a counterexample is replayed
+    let ex = T::tol(0.0, 1e-6);
+    let (ra_c, ga_c, ba_c) = (baked.verif_adapt(r0 * dr), baked.verif_adapt(g0 * dg), baked.verif_adapt(b0 * db));
+    T::lemma("adapt_r", abs_le(ra_c + k(0.1), sp.ra, ex)); T::lemma("adapt_g", abs_le(ga_c + k(0.1), sp.ga, ex)); T::lemma("adapt_b", abs_le(ba_c + k(0.1), sp.ba, ex));
+    let a_c = ra_c + (k(-12.0) * ga_c + ba_c) / k(11.0);
+    let b_c = (ra_c + ga_c - k(2.0) * ba_c) / k(9.0);
+    T::lemma("opponent_a", abs_le(a_c, sp.a, ex)); T::lemma("opponent_b", abs_le(b_c, sp.b, ex));
+    let h_c = palette::num::Trigonometry::atan2(b_c, a_c);
+    T::lemma("hue_angle", abs_le(h_c, sp.h_rad, ex));
+    let et_c = k(0.25) * (palette::num::Trigonometry::cos(h_c + k(2.0)) + k(3.8));
+    T::lemma("eccentricity", abs_le(et_c, sp.et, ex));
+    let rad_c = palette::num::Sqrt::sqrt(a_c * a_c + b_c * b_c);
+    T::lemma("opponent_radius", abs_le(rad_c, palette::num::Sqrt::sqrt(sp.a * sp.a + sp.b * sp.b), ex));
+    let t_c = k(5e4) / k(13.0) * nc * ncb * et_c * rad_c / (ra_c + ga_c + k(1.05) * ba_c + k(0.305));
+    T::lemma("t", abs_le(t_c, sp.t, T::tol(0.0, 1e-3)));
+    T::lemma("hue", same_or_hue_close(full.hue.into_raw_degrees(), sp.h, tol));
+    T::lemma("lightness", same_or_close(full.lightness, sp.j, tol));
+    T::ensure("brightness_nonneg", T::p_le(&T::k(0.0), &full.brightness));
+    T::lemma("brightness_squared", same_or_close(full.brightness * full.brightness, sp.q * sp.q, T::tol(1e-6, 1e-3)));
+    T::lemma("chroma", same_or_close(full.chroma, sp.c, T::tol(1e-7, 1e-2)));
+    T::lemma("colorfulness", same_or_close(full.colorfulness, sp.m, T::tol(1e-7, 1e-2)));
+    T::ensure("saturation_nonneg", T::p_le(&T::k(0.0), &full.saturation));
+    T::ensure("saturation_defining_equation", same_or_close(full.saturation * full.saturation * full.brightness, T::k(1.0e4) * full.colorfulness, T::tol(1e-6, 1e-1)));
+});
+
 pub fn all() -> Vec<crate::Prog> {
-    vec![c16_partial_eq_full_average::prog(), c16_partial_eq_full_dim::prog(), c16_black_and_white::prog(), c16_ucs::prog()]
+    vec![c16_partial_eq_full_average::prog(), c16_partial_eq_full_dim::prog(), c16_black_and_white::prog(), c16_ucs::prog(),
+         c16_parameters_published_average::prog(), c16_parameters_published_dim::prog(), c16_parameters_published_dark::prog(), c16_forward_published_given_vc::prog()]
     // not registered: c16_forward_published_* (forward model == published equations as a chain of cut-point lemmas): the portfolio
     // does not discharge the lemmas within 90 s each (see DESIGN.md 8.5); the bounded lattice programs lat_cam16_forward_* stand in
 }
